@@ -981,7 +981,9 @@ def compile_comprehension(compiler, expr, root, parts, final):
                     if is_for:
                         if body:
                             bd = compiler._compile_branch(body)
-                            return bd + bd.expr_as_stmt()
+                            bd += bd.expr_as_stmt()
+                            if bd.stmts:
+                                return bd
                         return Result(stmts=[asty.Pass(expr)])
                     if ends_with_unpack:
                         ends_with_unpack = False
@@ -1626,7 +1628,7 @@ def compile_try_expression(compiler, expr, root, body, catchers, orelse, finalbo
     else:
         finalbody = compiler._compile_branch(finalbody)
         finalbody += finalbody.expr_as_stmt()
-        finalbody = finalbody.stmts
+        finalbody = finalbody.stmts or [asty.Pass(expr)]
 
     return_expr = asty.Name(expr, id=return_var.id, ctx=ast.Load())
     returnable = Result(
